@@ -100,6 +100,16 @@ def directed_cases(seed: int, tier: str) -> typing.List[dict]:
             {"op": "generate", "opts": {"pp_prog": True}, "fault_pick": ["extprog_fail"]},
             {"op": "generate", "opts": {"pp_prog": True}},
         ],
+        "crlf-formatter-then-plain": [
+            {"op": "generate", "opts": {"pp_prog": "crlf"}},
+            {"op": "generate", "opts": {}},
+            {"op": "generate", "opts": {"pp_prog": "crlf", "file_mode": 0o644}},
+        ],
+        "copied-support-header": [
+            {"op": "generate", "opts": {"extra_support": "readonly", "file_mode": 0o640}},
+            {"op": "generate", "opts": {"extra_support": "readonly", "file_mode": 0o444, "pp_trim": True}},
+            {"op": "generate", "opts": {"extra_support": "readonly", "file_mode": 0o600}},
+        ],
         "omit-then-full": [
             {"op": "generate", "opts": {"omit_ser": True}},
             {"op": "generate", "opts": {}},
@@ -159,7 +169,9 @@ def _vary_opts(r: Rng, base: dict, tier: str) -> dict:
     if r.chance(1, 5):
         o["pp_max_empty"] = r.choice([0, 1, 2])
     if r.chance(1, 4):
-        o["pp_prog"] = r.choice([True, "rename"])  # formatter edits in place / replaces the file by temp + rename
+        o["pp_prog"] = r.choice([True, "rename", "crlf"])  # formatter edits in place / replaces the file by temp + rename / only normalises line endings to CRLF
+    if r.chance(1, 6) and lang in ("c", "cpp"):
+        o["extra_support"] = r.choice([True, "readonly"])  # the support package ships a plain header that is copied, not rendered
     if r.chance(1, 6) and lang in ("py", "html"):
         o["ns_types"] = True
     if r.chance(1, 8):
